@@ -292,6 +292,37 @@ impl Subject for C03 {
     fn finish(&mut self) -> Result<(), String> {
         self.compare("end")
     }
+    /// Canonical state: everything the future depends on, time-normalised. It is computed from the
+    /// reference machine, which `compare` has just asserted equal to the implementation's visible
+    /// AND hidden state (breaker state, retry deadline, per-bucket counters), so merging two
+    /// histories on it merges equal implementation states.
+    fn key(&self) -> Option<u64> {
+        let now = now_ms();
+        let mut parts: Vec<i64> = vec![];
+        for m in &self.models {
+            let len = m.len();
+            parts.push(match m.state {
+                St::Closed => 0,
+                St::Open => 1,
+                St::HalfOpen => 2,
+            });
+            // the deadline matters only while Open, and only by how far ahead it is
+            parts.push(if m.state == St::Open { m.next_retry.saturating_sub(now) as i64 } else { -1 });
+            parts.push((now % len) as i64);
+            parts.push(((now / len) % m.buckets) as i64);
+            for (s, c) in m.counters.iter().filter(|(s, c)| now - **s <= m.interval && **c != (0, 0)) {
+                parts.push(((now - now % len) - *s) as i64);
+                parts.push(c.0 as i64);
+                parts.push(c.1 as i64);
+            }
+            parts.push(-7);
+        }
+        for o in &self.open {
+            // only "slow or not" can depend on the age
+            parts.push((now - o.start).min(MAX_RT + 1) as i64);
+        }
+        Some(hash64(&parts))
+    }
     fn nontrivial(&self) -> bool {
         !self.mlog.is_empty()
     }
@@ -355,5 +386,27 @@ pub fn configs(thorough: bool) -> Vec<Cfg> {
 pub fn run(o: &Opts, stats: &mut Stats) -> Option<usize> {
     let cfgs = configs(o.thorough);
     let thorough = o.thorough;
+    // canonical-state BFS on a subset of the configurations (deeper than the sequence explorer)
+    if o.replay.is_none() {
+        let (every, depth, cap) = if thorough { (6, 9, 3_000_000) } else { (30, 7, 1_000_000) };
+        for (idx, c) in cfgs.iter().enumerate() {
+            if !o.mine(idx) || idx % every != 0 {
+                continue;
+            }
+            let mut s = C03::new(c);
+            let cv = serde_json::json!({"cfg": crate::explore::cfg_value(c), "search": "bfs"});
+            let ok = crate::explore::bfs(&mut s, &cv, depth, cap, stats);
+            if !ok {
+                for v in stats.violations.iter_mut() {
+                    if v.config.get("search").is_some() {
+                        v.config = crate::explore::cfg_value(c);
+                    }
+                }
+            }
+            if stats.need_restart {
+                return Some(idx + 1);
+            }
+        }
+    }
     run_configs(o, stats, &cfgs, |c, _| C03::new(c), &move |_c: &Cfg| if thorough { vec![Pass { depth: 8, max_dev: 4 }] } else { vec![Pass { depth: 7, max_dev: 3 }] })
 }
